@@ -30,19 +30,20 @@ CLAIM = {
             "converged implies that in the last iteration every error and the residual were within tolerance (NaN / inf never "
             "pass) and, with automatic damping, alpha = 1; alpha stays on {1, 0.1, 0.01}, falls only if all errors grew, "
             "recovers x10; exactly the rejected variables are restored; pipeflow returns only if every executed loop converged "
-            "with converged = True and tables written by the final extraction, PipeflowNotConverged leaves converged = False "
-            "and all-NaN tables for any prior state. The stage wiring theorem (every (new, old) pair returned by a solve "
+            "with converged = True and tables written by the final extraction, PipeflowNotConverged - and any other exception once the set-up phase is through - leaves "
+            "converged = False and all-NaN tables for any prior state. The stage wiring theorem (every (new, old) pair returned by a solve "
             "function is named, tested against its own tolerance and restored into its own pit column) is re-proved over a "
             "table regenerated from pipeflow.py on every run. The hand model is tied by exact correspondence with the real "
             "driver under scripted solve functions and with real pipeflow runs on generated nets.",
     "note": "All theorems are closed under the global context (no axioms); PrimFloat primitives occur only in the Example "
-            "pinning the alpha ladder to IEEE doubles. Partial / refuted: at vector level the error bounds every component "
-            "only for ragged result lists; when all returned vectors have equal length numpy's object-array max drops a "
-            "leading NaN (rect_error_drops_nan_refuted, reproduced on the real driver). Exceptions other than "
-            "PipeflowNotConverged are outside the property's second half; the model shows the path "
-            "(other_exception_after_convergence_leaves_results) and the correspondence reports real occurrences. That the "
-            "solve functions report honest changes / residuals is C01/C02/C10. The old copy being taken before the update "
-            "is checked syntactically by the translator only.",
+            "pinning the alpha ladder to IEEE doubles. Full strength since /repo 2c402d4 / 95f42ce: a NaN change of any "
+            "component makes the error NaN for any shape of the result vectors (nan_never_counts); an exception raised while "
+            "results are extracted, or escaping from inside a stage, leaves converged = False and all-NaN tables "
+            "(pipeflow_outcome, extraction_failure_leaves_no_results). Exceptions raised before net.converged = False "
+            "(init_options, create_lookups, initialize_pit) keep the old flag (modelled, outside the property's wording). "
+            "Known finding: bidirectional mode + automatic damping restores rejected hydraulic vectors into the heat-transfer "
+            "active pit (ValueError when the two pits differ in size). That the solve functions report honest changes / "
+            "residuals is C01/C02/C10. The old copy being taken before the update is checked syntactically by the translator only.",
     "technique": "Coq proof over hand-written state-machine model + generated wiring table + exact model/implementation "
                  "correspondence (scripted iterations, recorded real runs)",
     "design": "DESIGN.md 4/C05 + design_notes/C05.md",
